@@ -465,7 +465,7 @@ Proof.
   intros (Hh & Hb0 & Hba & Hbm & Hme) Hinv ts U.
   pose proof Hinv as [Hp Hu Hch Hw Hnd Hids Htl Hidx Hend Hcur Hst Htail Hhyd Hcnt].
   fold ts in Hp, Hu, Hch, Hw, Hnd, Hids, Htl, Hidx, Hend, Hcur, Hst, Htail, Hhyd, Hcnt.
-  unfold batch_read. fold ts. rewrite Hp.
+  unfold batch_read, br_position, br_from. fold ts. rewrite Hp.
   destruct (hydrate_fresh (reader_of ts) (ts_index ts) true Hhyd) as (r1 & Hhy & E1 & E2 & E3 & E4 & E5 & E6 & E7).
   rewrite Hhy. cbn beta iota zeta.
   rewrite E1, E2, E3, E4, E5.
